@@ -33,6 +33,7 @@ func runC17(c *Ctx) {
 	c17Generate(c, m)
 	c17Pad(c, m)
 	c17Determinism(c, m)
+	cToolchainPred(c, m, "C17.comparator-family")
 	c17ReflectRange(c, c.Root())
 }
 
@@ -257,6 +258,36 @@ func c17Generate(c *Ctx, m *Module) {
 		r.Check("C17.generate-shape", "generate/"+fld+" entry goes to the record's program", m.Pos(cl.Pos()), strings.Contains(bd, ".Program]") || strings.Contains(bd, "phi:"), "got "+shortDesc(bd))
 	}
 	r.Check("C17.generate-shape", "generate/fold sites", m.Pos(gen.Pos()), nApp == 2, fmt.Sprintf("%d", nApp))
+	// every program of the records is listed: no path from one program to the next avoids the append
+	// to ucfg.Programs (other than an error return) — a program without eligible versions is listed
+	// with an empty version list, not dropped with its counters
+	for _, cs := range callsIn(gen, "builtin:append") {
+		cl := cs.(*ssa.Call)
+		base, _, ok := appendedElems(cl)
+		if !ok {
+			continue
+		}
+		if _, fld, isF := fieldLoad(base); !isF || fld != "Programs" {
+			continue
+		}
+		var inner *loopInfo
+		for _, l := range naturalLoops(gen) {
+			if l.blocks[cl.Block()] && (inner == nil || len(l.blocks) < len(inner.blocks)) {
+				inner = l
+			}
+		}
+		okAll := inner != nil
+		if inner != nil {
+			var start []walkState
+			for _, sc := range inner.header.Succs {
+				if inner.blocks[sc] {
+					start = append(start, walkState{inner.header, sc, 0})
+				}
+			}
+			okAll = walkWithout(start, func(in ssa.Instruction) bool { return in == inner.header.Instrs[0] }, func(in ssa.Instruction) bool { return in == ssa.Instruction(cl) }) == nil
+		}
+		r.Check("C17.generate-shape", "generate/every program is listed", m.Pos(cl.Pos()), okAll, "no path to the next program may skip the append to ucfg.Programs")
+	}
 	// every record is listed: no path from one record to the next avoids both appends
 	if len(listSites) > 0 {
 		var inner *loopInfo
